@@ -71,6 +71,9 @@ pub struct SyncSc {
     /// holding those very bytes with an older mtime
     #[serde(default)]
     pub hardlink_pair: bool,
+    /// the remote login shell's time zone (POSIX TZ, e.g. "EST5", "JST-9"; empty = UTC)
+    #[serde(default)]
+    pub remote_tz: String,
 }
 
 pub const REMOTE_LINK: &str = "/data/current";
@@ -225,6 +228,7 @@ pub fn gen_sync(r: &mut Rng, allow_fail_inputs: bool) -> SyncSc {
         root_link: false,
         kill_child: None,
         hardlink_pair: false,
+        remote_tz: (*r.pick(&["", "", "EST5", "JST-9", "UTC0"])).to_string(),
     };
     if sc.files.len() >= 2 && r.below(10) == 0 {
         sc.hardlink_pair = true;
@@ -362,7 +366,11 @@ pub fn run_cfg(sc: &SyncSc, salt: u64) -> RunCfg {
 }
 
 pub fn run_sync(world: World, sc: &SyncSc, cfg: RunCfg, dry_run: bool) -> Outcome {
-    run_one(world, cfg, "sync", LOCAL, &argv(sc, dry_run), env_of(&[("HOME", "/home/u")]))
+    let mut env = env_of(&[("HOME", "/home/u")]);
+    if !sc.remote_tz.is_empty() {
+        env.insert("SIM_REMOTE_TZ".into(), sc.remote_tz.clone());
+    }
+    run_one(world, cfg, "sync", LOCAL, &argv(sc, dry_run), env)
 }
 
 // ---- independent reference of the statement ---------------------------------------------
